@@ -101,7 +101,7 @@ static var build(void) {
         for (int j = 0; j < 5; j++) set(c, $I(770000 + 37 * j), $I(1));
         for (int j = 0; j < 5; j++) rem(c, $I(770000 + 37 * j));
       } else {
-        if (k != 'U') { try { push(c, $S("refused")); } catch (e) { } }        /* a push the element type refuses (caught): nothing is left behind */
+        if (k != 'U' && !nofail) { try { push(c, $S("refused")); } catch (e) { } }        /* a push the element type refuses (caught): nothing is left behind */
         push_at(c, k == 'U' ? (var)new(Int, $I(7771)) : (var)$I(7771), $I(0));
         if (n >= 2) push_at(c, k == 'U' ? (var)new(Int, $I(7772)) : (var)$I(7772), $I(n / 2 + 1));      /* valid: the length is n + 1 here */
         push(c, k == 'U' ? (var)new(Int, $I(7773)) : (var)$I(7773));
